@@ -1,7 +1,9 @@
 (** C07 — Script execution is total: it always terminates with success or an error value.
     Model: model/Interp.v (every Go expression that can panic is an explicit [OPanic]/[VPanic] outcome);
     proofs: proofs/InterpTotal.v.  Termination: [engine_execute] is a structurally recursive Gallina
-    function over the parsed opcode lists (no fuel, no general recursion), so every run returns. *)
+    function over the parsed opcode lists (no fuel, no general recursion), so every run returns -- this holds by
+    construction of the model, not by a measure argument about the Go loops; the clause "terminates" is carried by
+    the correspondence (every case runs under a timeout).  Not modelled: thread.State() (debugger attached). *)
 From Coq Require Import List NArith ZArith.
 From Coq Require Import Strings.Byte.
 From GoBT Require Import lib.Bytes model.ScriptNum model.Interp model.ExecOpts proofs.InterpTotal proofs.ExecOptsTotal.
@@ -49,7 +51,10 @@ Proof.
 Qed.
 Print Assumptions C07_verdict_ok_or_err.
 
-(** parsing: truncated pushes are errors (None), never out-of-range slicing; the fuel is irrelevant *)
+(** parsing: truncated pushes are errors (None); the fuel is irrelevant.  (That the parser never slices out of range
+    holds by construction of model/Interp.parse_ops -- total list functions, no panic outcome; the clause is carried by
+    the correspondence on arbitrary byte strings.  The parser model with checked slice primitives is model/Parser.v,
+    [parse_total] in proofs/ParserProofs.v, a separate definition.) *)
 Theorem C07_parse_fuel_irrelevant : forall eoc f bs d, (length bs <= f)%nat ->
   parse_ops f eoc bs d = parse_ops (length bs) eoc bs d.
 Proof. intros. apply parse_ops_fuel; auto. Qed.
@@ -75,6 +80,31 @@ Theorem C07_p2sh_saved_stack_nonempty : forall so c eoc lock_bytes lock s acc,
   ds s = [] -> cond s = [] -> after_genesis c = false -> fst (run_ops so c lock 0 s acc) = SErr.
 Proof. exact p2sh_lock_needs_an_item. Qed.
 Print Assumptions C07_p2sh_saved_stack_nonempty.
+
+(** * Audit B additions (proofs/AuditB_C07.v) *)
+From GoBT Require Import model.Tx model.CheckSig proofs.AuditB_C07.
+
+(** any arguments AND the real signature opcodes of model/CheckSig.v: [proj_tx t] is what Engine.Execute reads of the
+    transaction [t]; whatever the index (negative, beyond the inputs), the scripts, the previous output and the flags,
+    no panic -- validate rejects the call before a signature operation could index an input that is not there *)
+Theorem C07_execute_total_with_real_tx : forall orc t o,
+  wf_tx t -> eo_tx o = Some (proj_tx t) -> (Z.of_nat (length (tx_ins t)) < 2 ^ 31)%Z ->
+  fst (engine_execute_opts (mk_sigops orc t (Z.to_N (eo_idx o))) o) <> VPanic.
+Proof. exact execute_total_with_real_tx. Qed.
+Print Assumptions C07_execute_total_with_real_tx.
+
+(** without a transaction or without a previous output no signature operation is ever called (the parser rejects
+    them, in the redeem script too): the run -- verdict and snapshots -- is that of [no_sigops], for ANY [so] *)
+Theorem C07_run_without_context_ignores_signature_operations : forall so i,
+  ei_has_tx i = false \/ ei_has_prevout i = false -> engine_execute so i = engine_execute no_sigops i.
+Proof. exact engine_execute_without_context. Qed.
+Print Assumptions C07_run_without_context_ignores_signature_operations.
+
+(** ... so such a run never panics, even with signature operations that would *)
+Theorem C07_engine_total_without_context : forall so i,
+  ei_has_tx i = false \/ ei_has_prevout i = false -> fst (engine_execute so i) <> VPanic.
+Proof. exact engine_total_without_context. Qed.
+Print Assumptions C07_engine_total_without_context.
 
 (** non-vacuity: programs of each kind exist and evaluate *)
 Example C07_runs :
